@@ -98,6 +98,10 @@ def worker():
     before = snapshot()
     tr0 = trace(files)
     calls = 0
+    log = {rn: {'names': list(r.data), 'attempts': []} for rn, r in regs.items()}  # for the Lean model
+
+    def kind(e):
+        return 'value' if isinstance(e, ValueError) else ('type' if isinstance(e, TypeError) else 'other')
     for rn, reg in regs.items():
         for name in list(reg.data):
             f = reg.data[name]
@@ -114,11 +118,11 @@ def worker():
                     else:
                         reg.register(name=name)(g)
                     V(f'registry/{rn}-accepts-a-taken-name', f'{rn} registry: registering another function under the taken name {name!r} ({form}) was accepted')
-                except ValueError:
-                    pass
+                    err = None
                 except Exception as e:
-                    # the unchanged code raises ValueError; another kind is reported only if the registry changed
-                    pass
+                    # the unchanged code raises ValueError; another kind is reported through the model trace
+                    err = kind(e)
+                log[rn]['attempts'].append({'fn': g.__name__, 'as': None if form == 'call' else name, 'sig': True, 'err': err})
                 now = snapshot()
                 if not same(before, now):
                     V(f'registry/{rn}-changed-by-refused-registration', f'{rn} registry: after the refused registration of another function under the taken name {name!r} ({form}) the registry resolves {name!r} differently')
@@ -133,8 +137,10 @@ def worker():
         try:
             reg.register(bad, name='regprobe_bad')
             V(f'registry/{rn}-accepts-wrong-signature', f'{rn} registry accepted a function without the protocol parameters')
-        except Exception:
-            pass
+            err = None
+        except Exception as e:
+            err = 'refused'  # which exception a malformed signature gets is not modelled (TypeError/ValueError/IndexError, per registry)
+        log[rn]['attempts'].append({'fn': 'bad', 'as': 'regprobe_bad', 'sig': False, 'err': err})
         now = snapshot()
         if not same(before, now):
             V(f'registry/{rn}-changed-by-refused-registration', f'{rn} registry: a registration refused for its signature left an entry behind')
@@ -148,14 +154,74 @@ def worker():
             V('factory/differs-after-refused-registration', f'{os.path.basename(f)}: the environment built after refused registrations behaves differently from the one built before')
     # a *successful* registration under a fresh name is visible under that name only
     fresh = _clone(regs['reward'].data['living_reward'], 'regprobe_living')
+    log['reward']['attempts'].append({'fn': 'regprobe_living', 'as': None, 'sig': True, 'err': None})
     try:
         regs['reward'].register(fresh)
         now = snapshot()
         if now['reward'].get('regprobe_living') is not fresh or any(now['reward'][k] is not before['reward'][k] for k in before['reward']):
             V('registry/successful-registration-misfiled', 'reward registry: a new function registered under a fresh name is not found under it, or displaced another')
     except Exception as e:
+        log['reward']['attempts'][-1]['err'] = kind(e)
         V('registry/fresh-name-refused', f'reward registry refused a conforming function under a fresh name: {type(e).__name__}: {e}')
-    print(json.dumps({'violations': out, 'calls': calls, 'names': sum(len(b) for b in before.values())}))
+    # accepted registrations under fresh names, in every registry, so that the model's append is exercised too
+    for rn, reg in regs.items():
+        first = next(iter(before[rn]))
+        g = _clone(before[rn][first], f'regprobe_new_{rn}')
+        try:
+            reg.register(g)
+            err = None
+        except Exception as e:
+            err = kind(e)
+        log[rn]['attempts'].append({'fn': g.__name__, 'as': None, 'sig': True, 'err': err})
+        try:
+            reg.register(_clone(before[rn][first], 'regprobe_x'), name=f'regprobe_new_{rn}')  # now taken
+            err = None
+        except Exception as e:
+            err = kind(e)
+        log[rn]['attempts'].append({'fn': 'regprobe_x', 'as': f'regprobe_new_{rn}', 'sig': True, 'err': err})
+        log[rn]['final'] = list(reg.data)
+    print(json.dumps({'violations': out, 'calls': calls, 'names': sum(len(b) for b in before.values()), 'log': log}))
+
+
+def model_trace_violations(log):
+    """run the same attempts through `GV.Registry.register` (Model/Registry.lean, interpreted by `lean`) and
+    compare, attempt by attempt, whether it is refused and with which exception, and the final name list"""
+    import tempfile
+
+    def q(x):
+        return json.dumps(x)
+
+    lines = ['import GridVerse.Model.Registry', 'open GV',
+             'def errS : Option RegErr → String | none => "ok" | some .valueError => "value" | some .typeError => "type"',
+             'def runT (r : Registry Nat) : List (RegAttempt Nat) → List String × Registry Nat',
+             '  | [] => ([], r)',
+             '  | a :: as => let p := r.register a; let q := runT p.1 as; (errS p.2 :: q.1, q.2)']
+    order = sorted(log)
+    for rn in order:
+        L = log[rn]
+        reg = '[' + ', '.join(f'({q(n)}, {i})' for i, n in enumerate(L['names'])) + ']'
+        atts = '[' + ', '.join('⟨%d, %s, %s, %s⟩' % (1000 + i, q(a['fn']), 'none' if a['as'] is None else f'some {q(a["as"])}', 'true' if a['sig'] else 'false') for i, a in enumerate(L['attempts'])) + ']'
+        lines.append(f'#eval let p := runT ({reg} : Registry Nat) {atts}; IO.println (String.intercalate " " p.1 ++ " | " ++ String.intercalate " " (p.2.map (·.1)))')
+    with tempfile.NamedTemporaryFile('w', suffix='.lean', delete=False) as f:
+        f.write('\n'.join(lines) + '\n')
+        path = f.name
+    try:
+        p = subprocess.run(['lake', 'env', 'lean', path], cwd=os.path.join(VERIF, 'lean'), stdout=subprocess.PIPE, stderr=subprocess.STDOUT, text=True, timeout=300)
+    finally:
+        os.unlink(path)
+    outl = [ln for ln in p.stdout.splitlines() if ' | ' in ln]
+    if p.returncode != 0 or len(outl) != len(order):
+        return [{'signature': 'regprobe/model-run-failed', 'what': p.stdout[-400:]}]
+    viol = []
+    for rn, ln in zip(order, outl):
+        errs, names = ln.split(' | ')
+        L = log[rn]
+        real = ['ok' if a['err'] is None else ('type' if a['err'] == 'refused' else a['err']) for a in L['attempts']]
+        if errs.split() != real or names.split() != L.get('final'):
+            k = next((i for i, (x, y) in enumerate(zip(errs.split(), real)) if x != y), None)
+            where = f'attempt {k}: {L["attempts"][k]} — model {errs.split()[k]!r}' if k is not None else f'final names: real {L.get("final")} model {names.split()}'
+            viol.append({'signature': f'registry/{rn}-differs-from-the-model', 'what': f'{rn} registry and Model/Registry.lean disagree on the same sequence of registrations ({where})'})
+    return viol
 
 
 def check(seed, tier):
@@ -163,6 +229,7 @@ def check(seed, tier):
     if p.returncode != 0:
         return {'evaluations': 1, 'distinct_nontrivial': 1, 'violations': [{'signature': 'regprobe/worker-failed', 'what': p.stderr[-400:], 'case': {'kind': 'regprobe'}}]}
     res = json.loads(p.stdout.strip().splitlines()[-1])
+    res['violations'] += model_trace_violations(res.get('log') or {})
     for v in res['violations']:
         v['case'] = {'kind': 'regprobe'}
     return {'evaluations': res['calls'], 'distinct_nontrivial': res['names'], 'violations': res['violations']}
